@@ -213,6 +213,9 @@ type kase struct {
 	distinctNames    bool // concurrent launches ask for handlers registered under different names
 	cleansEnv        int  // the handler changes its own environment before Done(): 1 unsets ENV_DAEMON_*, 2 os.Clearenv()
 	relativeArgv0    bool // the caller child is started through a relative path (./prog)
+	// bareArgv0: the caller child was found through $PATH - os.Args[0] is the bare program name, the working directory is
+	// somewhere else (how a shell starts an installed program); re-executing os.Args[0] looks it up again
+	bareArgv0 bool
 	nested           bool // the launched daemon is a supervisor: it launches a worker daemon itself before Done()
 	shortLived       bool // the handler returns right after Done(): Launch still reports the pid it ran under
 	ignoresSigint    bool // the caller child runs with SIGINT ignored (nohup, background job)
@@ -257,6 +260,9 @@ func (k kase) String() string {
 	}
 	if k.cleansEnv > 0 {
 		s += []string{"", " handlerUnsetsDaemonVariables", " handlerClearsItsEnvironment", " handlerClosesItsDescriptorsAboveStderr"}[k.cleansEnv]
+	}
+	if k.bareArgv0 {
+		s += " callerStartedByBareNameThroughPATH"
 	}
 	if k.relativeArgv0 {
 		s += " callerStartedAsDotSlashProg"
@@ -428,13 +434,24 @@ func runCase(k kase) string {
 					cmd = exec.Command("./" + filepath.Base(selfExe))
 					cmd.Dir = filepath.Dir(selfExe)
 				}
+				if k.bareArgv0 {
+					cmd = exec.Command(selfExe)
+					cmd.Args = []string{filepath.Base(selfExe)}
+					cmd.Dir = os.TempDir()
+				}
 				// the child gets this case's variables and nobody else's: cases that call Launch in this very process put
 				// theirs into the process environment while they run, and a child started at that moment must not inherit them
 				for _, kv := range os.Environ() {
 					if name, _, _ := strings.Cut(kv, "="); strings.HasPrefix(name, "C20_") || strings.HasPrefix(name, "VERIF_DAEMON_") || strings.HasPrefix(name, "ENV_DAEMON_") {
 						continue
 					}
+					if k.bareArgv0 && strings.HasPrefix(kv, "PATH=") {
+						continue
+					}
 					cmd.Env = append(cmd.Env, kv)
+				}
+				if k.bareArgv0 {
+					cmd.Env = append(cmd.Env, "PATH="+filepath.Dir(selfExe)+":"+os.Getenv("PATH"))
 				}
 				for kk, v := range env {
 					cmd.Env = append(cmd.Env, kk+"="+v)
@@ -727,8 +744,8 @@ func TestGrid(t *testing.T) {
 	}
 	// a hang-up while the daemon is on its way (round twenty-two): the caller under nohup, in a group of its own
 	if si == 0 {
-		for _, d := range []int{400, 900} {
-			k := kase{delayMs: d, concurrent: 1, childCaller: true, hangup: true, ignoresSigint: d == 900}
+		for _, d := range []int{400, 900, 0} {
+			k := kase{delayMs: d, concurrent: 1, childCaller: true, hangup: d > 0, ignoresSigint: d == 900, bareArgv0: d != 400}
 			if msg := runCase(k); msg != "" {
 				if strings.HasPrefix(msg, "harness:") {
 					rt.Inconclusivef(t, "%s: %s", k, msg)
@@ -737,7 +754,12 @@ func TestGrid(t *testing.T) {
 				return
 			}
 			n++
-			ev.Label("caller_under_nohup_and_SIGHUP_to_its_group_before_Done")
+			if k.hangup {
+				ev.Label("caller_under_nohup_and_SIGHUP_to_its_group_before_Done")
+			}
+			if k.bareArgv0 {
+				ev.Label("caller_started_by_bare_name_through_PATH")
+			}
 			ev.Case(true, ev.Hash(k.String()), k.String)
 		}
 	}
@@ -804,6 +826,7 @@ func TestGenerated(t *testing.T) {
 		k.shortLived = !k.nested && rapid.IntRange(0, 3).Draw(t, "handlerReturnsAfterDone") == 0
 		k.ignoresSigint = k.childCaller && rapid.IntRange(0, 2).Draw(t, "callerIgnoresSIGINT") == 0
 		k.doneFrom = rapid.SampledFrom([]int{0, 0, 1, 2}).Draw(t, "doneCalledFrom")
+		k.bareArgv0 = k.childCaller && !k.relativeArgv0 && rapid.IntRange(0, 3).Draw(t, "callerFoundThroughPATH") == 0
 		if k.childCaller && k.concurrent == 1 && !k.nested && !k.afterFailed && rapid.IntRange(0, 3).Draw(t, "hangup") == 0 {
 			k.hangup = true
 			if k.delayMs < 400 {
@@ -877,6 +900,9 @@ func TestGenerated(t *testing.T) {
 		}
 		if k.hangup {
 			ev.Label("caller_under_nohup_and_SIGHUP_to_its_group_before_Done")
+		}
+		if k.bareArgv0 {
+			ev.Label("caller_started_by_bare_name_through_PATH")
 		}
 		ev.Case(k.nontrivial(), ev.Hash(k.String()), k.String)
 	})
